@@ -30,7 +30,7 @@ pub struct HistoryParams {
 
 impl HistoryParams {
     pub fn generate(rng: &mut Rng, idx: u64, n_ops: usize) -> HistoryParams {
-        let family = KeyFamily::ALL[(idx % 5) as usize];
+        let family = KeyFamily::ALL[(idx % 6) as usize];
         let cfg = if idx % 4 == 3 { gen::config(rng) } else { gen::tiny_config(rng) };
         HistoryParams {
             n_ops,
